@@ -45,6 +45,14 @@ class AbstractDenseTimeOnlineInterpreter(AbstractOnlineInterpreter, DenseTimeInt
 
         return rob
 
+    def reset(self):
+        # the dense-time operations keep their buffers in attributes created by their constructors
+        # (their own reset() methods are empty): rebuild them, and the visitors' per-run state, from the ast
+        self.set_ast(self.ast)
+        self.updateVisitor = DenseTimeOnlineUpdateVisitor()
+        self.updateFinalVisitor = DenseTimeOnlineUpdateFinalVisitor()
+        return
+
     def update_final(self, dataset):
         # check ast exists
         self.exist_ast()
